@@ -387,6 +387,7 @@ func c17(c *core.Ctx, r *core.Report) {
 
 	// ---- R17.registry
 	c17registry(c, r)
+	c17mirror(c, r)
 	// ---- R17.globals
 	c17globals(c, r)
 }
